@@ -10,7 +10,7 @@ RULE = ("random PEP 508 formula trees (or-lists of and-lists of atoms / parenthe
         "atoms variable|literal op variable|literal over all ten operators; literals from version-like, name-like and arbitrary "
         "PEP 508 character pools incl. the other quote) rendered with random whitespace, quote style, dotted names and redundant "
         "parentheses, each evaluated under environments that spell out all 12 keys (values from the same pools, biased towards the "
-        "compared literals; extra=None; python_full_version ending in '+'); an operator x operand x operand sweep over single atoms; "
+        "compared literals; version atoms whose environment value is an order neighbour of the literal, with and without a local label; extra=None; python_full_version ending in '+'); an operator x operand x operand sweep over single atoms; "
         "partial mappings on top of the host's default_environment(); mutated texts; flat formulas of 4..40 atoms; right operands starting with '=' (the operator read back "
         "from op+rhs is not the one written); markers nested 50..300 parentheses deep (redundant, right-, left-nested, zig-zag) with the value "
         "the formula must have; non-ASCII word characters placed next to keywords and variable names; environments with repeated keys, keys "
@@ -137,6 +137,22 @@ def streams(rng, tier):
                 elif shape == "ev": s = 'extra %s %s' % (op, v1); env["extra"] = l; env[v1] = r
                 else: s = '%s %s extra' % (v1, op); env[v1] = l; env["extra"] = r
                 out.append(Case("atom-sweep", "k.eval", [s, "M"] + G.env_args(env)))
+
+    # 2b. version comparison atoms on ORDER NEIGHBOURS: the environment value is a structured neighbour of the literal's version (same release with
+    #     another pre/post/dev suffix, zero padding, release +-1, epoch), half of the time carrying a local label (an untagged build's
+    #     python_full_version "3.13.0rc2+"), under every version operator and both operand orders (round 7: seeded change r7-c07-a)
+    from dataclasses import replace as _repl
+    for _ in range(1500 if q else 40000):
+        V = gen.rand_v(rng, local_p=0.1)
+        c = rng.choice(gen.neighbours(rng, V))
+        if rng.random() < 0.5: c = gen.fix_local(_repl(c, local=(rng.choice(gen.LOCAL_SEGS),)))
+        lit, val = gen.spell(rng, V, ws=False, vprefix=False), gen.spell(rng, c, ws=False, vprefix=False)
+        if "'" in lit + val or '"' in lit + val: continue
+        op = rng.choice(["==", "!=", "<", "<=", ">", ">=", "~=", "==="])
+        v1 = rng.choice(["python_version", "python_full_version", "implementation_version", "platform_release", "platform_version"])
+        env = G.rand_env(rng); env[v1] = val
+        s = ('%s %s "%s"' % (v1, op, lit)) if rng.random() < 0.7 else ('"%s" %s %s' % (lit, op, v1))
+        out.append(Case("version-neighbours", "k.eval", [s, "M"] + G.env_args(env)))
 
     # 3. partial mappings over the host defaults, evaluate() without mapping, and the environment laws
     for _ in range(600 if q else 15000):
